@@ -12,6 +12,7 @@ Commands:
   st <idx> <value>            define state idx
   eq <i> <j>                  -> 1|0      (x == y)
   dc <i>                      -> 1|0      (deepcopy(x) == x)
+  dca <i>                     -> 1|0      (deepcopy keeps EVERY attribute, compare=False ones included)
   rc <i>                      -> <reconstructible 1|0> <1|0>   (type(x)(**own values) == x)
   repr <i>                    -> <ClassName> <attr>=<kind> ...
 -/
@@ -141,6 +142,15 @@ def handle (d : DSt) (line : String) : DSt × String :=
     match i.toNat?.bind d.get with
     | some x => (d, b2s (pyEq d.table (deepcopy d.table x) x))
     | none => (d, "bad-dc")
+  | ["dca", i] =>
+    -- every attribute (also compare=False ones) of the copy is attribute-equal to the original's
+    match i.toNat?.bind d.get with
+    | some (.inst c fs) =>
+      let all := (d.table.attrs c).map (fun a => { a with compare := true })
+      (match deepcopy d.table (.inst c fs) with
+       | .inst _ fs' => (d, b2s (fieldsEq d.table all fs' fs))
+       | _ => (d, "bad-dca"))
+    | _ => (d, "bad-dca")
   | ["rc", i] =>
     match i.toNat?.bind d.get with
     | some x =>
